@@ -70,6 +70,20 @@ def model_check(chk, tier):
         core.tlc_must_pass(res, "Startup " + cfg)
         chk.add_tlc(res)
         info.append({"cfg": cfg, "states": res.distinct, "transitions": res.generated, "wall_s": round(res.wall, 1)})
+    if tier != "quick":
+        # anti-vacuity: the algorithm as found in the pinned tree must be rejected by the same invariants
+        res = core.run_tlc("Startup_MC.tla", "Startup_lookup2_pinned.cfg", workers=8, timeout=3000, xmx="6g")
+        info.append({"cfg": "Startup_lookup2_pinned.cfg", "expected_counterexample_found": "LookupCorrect" in res.invariant_violated})
+        if "LookupCorrect" not in res.invariant_violated:
+            raise core.ToolError("Startup_lookup2_pinned: the pinned algorithm was not rejected (vacuous invariant?)")
+    chk.extra["transcription_model_checked"] = info
+    return leads
+
+
+def model_check_aux(chk, tier):
+    """Reloc.tla and Vdso.tla: transcription = definition over their bounded domains (no leads to replay: the real
+    images are judged by the clauses reloc_image and vdso)."""
+    info = []
     for cfg in (["Reloc_q.cfg"] if tier == "quick" else ["Reloc_t.cfg", "Reloc_t2.cfg"]):
         res = core.run_tlc("Reloc_MC.tla", cfg, workers=8, timeout=3000, xmx="6g")
         if res.invariant_violated:
@@ -80,27 +94,27 @@ def model_check(chk, tier):
         with _LOCK:
             chk.add_tlc(res)
         info.append({"cfg": cfg, "states": res.distinct, "transitions": res.generated, "wall_s": round(res.wall, 1)})
-    res = core.run_tlc("Vdso_MC.tla", "Vdso_aligned.cfg", workers=4, timeout=3000, xmx="4g")
-    core.tlc_must_pass(res, "Vdso_aligned")
-    with _LOCK:
-        chk.add_tlc(res)
-    info.append({"cfg": "Vdso_aligned.cfg", "states": res.distinct, "wall_s": round(res.wall, 1)})
+    for cfg in ("Vdso_any.cfg", "Vdso_aligned.cfg"):
+        res = core.run_tlc("Vdso_MC.tla", cfg, workers=4, timeout=3000, xmx="4g")
+        if res.invariant_violated:
+            info.append({"cfg": cfg, "model_counterexample": res.invariant_violated})
+            core.log("Vdso %s: model counterexample %s (lead; the real images are judged by clause vdso)" % (cfg, res.invariant_violated))
+            continue
+        core.tlc_must_pass(res, cfg)
+        with _LOCK:
+            chk.add_tlc(res)
+        info.append({"cfg": cfg, "states": res.distinct, "wall_s": round(res.wall, 1)})
     if tier != "quick":
-        res = core.run_tlc("Vdso_MC.tla", "Vdso_any.cfg", workers=4, timeout=3000, xmx="4g")
-        info.append({"cfg": "Vdso_any.cfg", "lead_decided_by_model": "a symbol value that is not a multiple of its section's alignment is "
-                     "resolved to the value rounded up", "counterexample_found": "ResolutionAdmissible" in res.invariant_violated})
+        # anti-vacuity: the walk as found in the pinned tree (value rounded up to the section alignment) must be rejected
+        res = core.run_tlc("Vdso_MC.tla", "Vdso_any_pinned.cfg", workers=4, timeout=3000, xmx="4g")
+        info.append({"cfg": "Vdso_any_pinned.cfg", "expected_counterexample_found": "PinnedAdmissible" in res.invariant_violated})
+        if "PinnedAdmissible" not in res.invariant_violated:
+            raise core.ToolError("Vdso_any_pinned: the pinned walk was not rejected (vacuous invariant?)")
     if tier != "quick":
         res = core.run_tlc("Reloc_MC.tla", "Reloc_dynfirst.cfg", workers=4, timeout=3000, xmx="4g")
         info.append({"cfg": "Reloc_dynfirst.cfg", "lead_decided_by_model": "PT_DYNAMIC as FIRST program header is never seen by the walk "
                      "(it starts at the second header): base stays 0", "counterexample_found": bool(res.invariant_violated)})
-    if tier != "quick":
-        # anti-vacuity: the algorithm as found in the pinned tree must be rejected by the same invariants
-        res = core.run_tlc("Startup_MC.tla", "Startup_lookup2_pinned.cfg", workers=8, timeout=3000, xmx="6g")
-        info.append({"cfg": "Startup_lookup2_pinned.cfg", "expected_counterexample_found": "LookupCorrect" in res.invariant_violated})
-        if "LookupCorrect" not in res.invariant_violated:
-            raise core.ToolError("Startup_lookup2_pinned: the pinned algorithm was not rejected (vacuous invariant?)")
-    chk.extra["transcription_model_checked"] = info
-    return leads
+    return info
 
 
 def gen(chk, mode, maxenv):
@@ -706,6 +720,63 @@ def reloc_image(chk, bins):
         info["transcription_on_real_tables"] = {"error": str(e)[:300]}
 
 
+def vdso_record(image, resolved, label, target):
+    from checks import elfparse
+    v = elfparse.Elf(image)
+    ds = v.section(".dynstr")
+    clamp = lambda x: x if x < (1 << 30) else (1 << 30)
+    return {"mode": "image", "build": label, "target": target,
+            "sections": [{"name": list(s["name"]), "align": clamp(s["addralign"])} for s in v.sections],
+            "shstrndx": v.e_shstrndx,
+            "dynstr": list(image[ds["offset"]:ds["offset"] + ds["size"]]) if ds else [0],
+            "dynsym": [{"name": s[5], "value": clamp(s[1]), "shndx": s[3]} for s in v.symbols(".dynsym")],
+            "resolved": resolved}
+
+
+def vdso_images(chk, image):
+    """The REAL lookup function (through the cfg-only hook tiny_std::elf::verif_find_clock_gettime, std-linked driver
+    probe/vdsofn) run on the kernel's vDSO image and on variants of it that a kernel could equally ship:
+    another alignment of .text, the function at a 16- but not 32-aligned address, no section-name table.
+    Each (image, resolved offset) is judged by VdsoJudge.tla like the probes' own pointer."""
+    import struct
+    from checks import elfparse
+    target = list(b"__vdso_clock_gettime")
+    v = elfparse.Elf(image)
+    variants = [("kernel", image)]
+    text = v.section(".text")
+    if text:
+        for al in (16, 64, 128, 4096):
+            b = bytearray(image)
+            struct.pack_into("<Q", b, v.e_shoff + text["index"] * v.e_shentsize + 48, al)
+            variants.append(("text_align_%d" % al, bytes(b)))
+    dy = v.section(".dynsym")
+    syms = v.symbols(".dynsym")
+    tgt = next((k for k, s in enumerate(syms) if s[0] == bytes(target)), None)
+    if dy and tgt is not None:
+        for k, s in enumerate(syms):        # clock_gettime placed where another function of the vDSO lies
+            if s[3] == syms[tgt][3] and s[1] != syms[tgt][1] and s[0].startswith(b"__vdso_"):
+                b = bytearray(image)
+                struct.pack_into("<Q", b, dy["offset"] + 24 * tgt + 8, s[1])
+                variants.append(("function_at_%s" % hex(s[1]), bytes(b)))
+    b = bytearray(image)
+    struct.pack_into("<H", b, 62, 0)        # e_shstrndx = 0
+    variants.append(("no_shstrndx", bytes(b)))
+    bdir = core.cargo_build(template="probe/vdsofn")
+    recs = []
+    for label, img in variants:
+        path = os.path.join(chk.work, "vdso_%s.img" % label)
+        with open(path, "wb") as f:
+            f.write(img)
+        p = subprocess.run([os.path.join(bdir, "vdsofn"), path], stdout=subprocess.PIPE, stderr=subprocess.PIPE, timeout=60)
+        out = p.stdout.decode().split()
+        if p.returncode != 0 or len(out) != 2:
+            resolved = -2           # the lookup faulted / panicked on this image
+        else:
+            resolved = -1 if out[1] == "none" else int(out[1])
+        recs.append(vdso_record(img, resolved, label, target))
+    return recs
+
+
 def load_base(pid, binary, elf):
     """run-time address of link-time address 0 of the main executable (0 for a non-PIE static link)"""
     first = min((p for p in elf.phdrs if p["type"] == 1), key=lambda p: p["vaddr"])
@@ -771,6 +842,7 @@ def vdso_lookup(chk, bins):
                 p.wait(timeout=10)
             except subprocess.TimeoutExpired:
                 p.kill()
+        kernel_image = image
         v = elfparse.Elf(image)
         ds, dy = v.section(".dynstr"), v.section(".dynsym")
         if ds is None or dy is None:
@@ -790,6 +862,11 @@ def vdso_lookup(chk, bins):
     chk.extra["vdso_lookup"] = info
     if not recs:
         return
+    nprobe = len(recs)
+    try:
+        recs += vdso_images(chk, kernel_image)
+    except (core.ToolError, OSError, subprocess.SubprocessError, ValueError) as e:
+        info["image_variants_error"] = str(e)[:300]
     # canaries: a pointer 16 bytes beside the symbol / a pointer to another symbol must be rejected
     import copy
     canaries = []
@@ -811,7 +888,21 @@ def vdso_lookup(chk, bins):
         raise core.ToolError("VdsoJudge accepted a corrupted pointer (vacuous clause?)")
     info["canaries_rejected"] = len(canaries)
     full = [m for m in meta if "pointer" in m]
-    for v, rec, m in zip(j[0]["v"], recs, full):
+    variants = []
+    for v, rec in list(zip(j[0]["v"], recs))[nprobe:]:
+        variants.append({"image": rec["build"], "resolved": rec["resolved"], "admissible": v["ok"], "definitional_values": v["def"],
+                         "walk_conforms": v["conform"]})
+        with _LOCK:
+            chk.evaluations += 1
+            chk.traces += 1 if v["ok"] else 0
+        if not v["ok"]:
+            with _LOCK:
+                chk.violate({"clause": "vdso", "kind": "faulted" if rec["resolved"] == -2 else "pointer_is_not_the_symbol"},
+                            "the real lookup (find_vdso_clock_get_time) run on the vDSO image variant '%s' resolved offset %s, but the "
+                            "image's dynamic symbol __vdso_clock_gettime has value(s) %s" % (rec["build"], rec["resolved"], v["def"]),
+                            {"mode": "dyn", "build": "debug", "clause": "vdso", "variant": rec["build"], "argv": [[97]], "env": [], "keys": []})
+    info["image_variants"] = variants
+    for v, rec, m in list(zip(j[0]["v"], recs, full))[:nprobe]:
         m.update({"admissible": v["ok"], "walk_conforms": v["conform"], "symbols_aligned_to_section": v["aligned"],
                   "definitional_values": v["def"], "walk_result": v["walk"]})
         with _LOCK:
@@ -828,7 +919,7 @@ def vdso_lookup(chk, bins):
             core.log("C07: model drift - Vdso.tla's walk on the real vDSO gives %s, the code stored offset %s (not a verdict)" % (
                 v["walk"], rec["resolved"]))
     info["model_conformance_ok"] = all(v["conform"] for v in j[0]["v"][:len(recs)])
-    info["rounding_can_bite_on_this_vdso"] = not all(v["aligned"] for v in j[0]["v"][:len(recs)])
+    info["every_symbol_of_this_vdso_is_aligned_to_its_section"] = all(v["aligned"] for v in j[0]["v"][:nprobe])
 
 
 EXTRA_ENVS = [
@@ -859,6 +950,8 @@ def run(tier):
     bg = concurrent.futures.ThreadPoolExecutor(max_workers=1)
     bg2 = concurrent.futures.ThreadPoolExecutor(max_workers=1)
     model_future = bg.submit(model_check, chk, tier)
+    bg3 = concurrent.futures.ThreadPoolExecutor(max_workers=1)
+    aux_future = bg3.submit(model_check_aux, chk, tier)
 
     bins = {}
     for mode, tmpl in MODES:
@@ -965,6 +1058,8 @@ def run(tier):
         action_coverage(chk, "Startup_MC.tla", ["Startup_boot.cfg", "Startup_lookup2.cfg"])
     image_future.result()
     bg2.shutdown()
+    chk.extra["transcription_model_checked"] = chk.extra.get("transcription_model_checked", []) + aux_future.result()
+    bg3.shutdown()
     core.log("C07: judged (t=%.0fs)" % (time.time() - chk.t0))
     chk.nontrivial = len(nontrivial)
     chk.exhaustive = not quick
@@ -994,7 +1089,8 @@ def run(tier):
                 "duplicate name or two names one a proper prefix of the other" % (
                     "all blocks of <= 2 entries plus a seeded sample of 300 3-entry blocks" if quick else "all 12 720 of them") + " (plus %d random blocks of 4..6 entries and a few hand-written cases: 40 arguments / 53 entries, non-UTF-8 names, 200-byte and 20 000-byte strings)" % (150 if quick else 2000))
     chk.assumptions = ["x86_64 only; kernel passes each aux key at most once",
-                       "correctness of REL/RELA self-relocation is observed through 'the static-PIE probe starts and answers correctly'",
+                       "self-relocation: judged for every word named by .rela.dyn/.rel.dyn and for the other words of .data.rel.ro/.got; REL entries do not occur with this linker (model only)",
+                       "vDSO lookup: the probes' stored pointer and the real lookup function on 11 variants of this kernel's vDSO image; other kernels' images are covered only by the bounded model",
                        "for the empty key 'missing' is admitted next to the definitional answer (names are non-empty in POSIX)",
                        "UTF-8 validity is decided only for all-ASCII strings (valid) and strings with a byte that never occurs in UTF-8 (invalid)",
                        "clock: the tiny-std reading lies between two direct system-call readings; whether it came from the vDSO is "
